@@ -488,7 +488,9 @@ func (p *Proc) markDead(reason string) {
 	for _, q := range p.queues {
 		q.shutdown = true
 	}
-	p.sim.Faults["proc.crash"]++
+	if reason != "teardown" {
+		p.sim.Faults["proc.crash"]++
+	}
 	p.sim.Tracef("CRASH process %s: %s", p.name, reason)
 }
 
